@@ -28,6 +28,9 @@ type GenConfig struct {
 	LostRetry  bool // allow Sl (response lost) ... Rt (retry later, after others acted)
 	OptOut     bool // some clients attach WithDisableGC
 	Compact    bool // allow K / Kf (compaction) steps
+	// NoMovedSet: no array set-by-index once an element has been moved (finding P13 is judged by the
+	// properties it belongs to; elsewhere such a set becomes an insert at the same index)
+	NoMovedSet bool
 }
 
 var keys = []string{"k1", "k2", "k3"}
@@ -255,6 +258,21 @@ func Generate(r *rng.R, g GenConfig) *History {
 				h.Steps = append(h.Steps, Step{Op: "Z", C: c})
 			} else {
 				h.Steps = append(h.Steps, Step{Op: "Y", C: c})
+			}
+		}
+	}
+	if g.NoMovedSet {
+		moved := false
+		for i := range h.Steps {
+			for k := range h.Steps[i].Edits {
+				switch e := &h.Steps[i].Edits[k]; e.K {
+				case "amov", "amovf", "amovl":
+					moved = true
+				case "aset":
+					if moved {
+						e.K = "ains"
+					}
+				}
 			}
 		}
 	}
